@@ -37,6 +37,10 @@ type Task struct {
 	gid    int64
 	Steps  int
 	prio   int
+	// parkCount counts how often the task parked; seenPark is the last park the
+	// scheduler has examined for site-aimed faults
+	parkCount int
+	seenPark  int
 }
 
 func (t *Task) Site() string { return t.site }
@@ -79,7 +83,9 @@ type Sim struct {
 	// IdleHorizon bounds how far the clock may jump while nothing is runnable.
 	IdleHorizon time.Duration
 
-	events map[int][]event
+	events       map[int][]event
+	siteTriggers map[string][]siteTrigger
+	siteParks    map[string]int
 	// Until, if set, ends Run as soon as it returns true at a quiescent point.
 	Until func() bool
 	// OnQuiescent, if set, is called at every quiescent point before a task is
@@ -109,6 +115,13 @@ type Sim struct {
 }
 
 type Note struct{ Site, Detail string }
+
+type siteTrigger struct {
+	nth  int
+	name string
+	fn   func()
+	done bool
+}
 
 type event struct {
 	name string
@@ -181,19 +194,21 @@ func installHooks() {
 func New(sched *Stream, strat Strategy, maxSteps int) *Sim {
 	installHooks()
 	s := &Sim{
-		gen:         genCount.Add(1),
-		byGID:       map[int64]*Task{},
-		wake:        make(chan struct{}, 1),
-		Sched:       sched,
-		strategy:    strat,
-		MaxSteps:    maxSteps,
-		IdleHorizon: 100000 * time.Hour,
-		events:      map[int][]event{},
-		TraceCap:    4000,
-		digest:      14695981039346656037,
-		start:       time.Now(),
-		SiteCount:   map[string]int{},
-		PairSet:     map[string]struct{}{},
+		gen:          genCount.Add(1),
+		byGID:        map[int64]*Task{},
+		wake:         make(chan struct{}, 1),
+		Sched:        sched,
+		strategy:     strat,
+		MaxSteps:     maxSteps,
+		IdleHorizon:  100000 * time.Hour,
+		events:       map[int][]event{},
+		siteTriggers: map[string][]siteTrigger{},
+		siteParks:    map[string]int{},
+		TraceCap:     4000,
+		digest:       14695981039346656037,
+		start:        time.Now(),
+		SiteCount:    map[string]int{},
+		PairSet:      map[string]struct{}{},
 	}
 	current.Store(s)
 	return s
@@ -279,6 +294,7 @@ func (s *Sim) bindAndPark(t *Task) {
 	}
 	t.site = "start"
 	t.state = Parked
+	t.parkCount++
 	s.mu.Unlock()
 	s.signal()
 	<-t.resume
@@ -318,6 +334,7 @@ func (s *Sim) yield(site string) {
 	s.mu.Lock()
 	t.site = site
 	t.state = Parked
+	t.parkCount++
 	s.mu.Unlock()
 	s.signal()
 	<-t.resume
@@ -370,6 +387,14 @@ func (s *Sim) takeEvents(k int) []event {
 	evs := s.events[k]
 	delete(s.events, k)
 	return evs
+}
+
+// AtSite schedules fn to run in the scheduler goroutine at the quiescent point
+// right after a task has parked at the given hook site for the nth time.
+func (s *Sim) AtSite(site string, nth int, name string, fn func()) {
+	s.mu.Lock()
+	defer s.mu.Unlock()
+	s.siteTriggers[site] = append(s.siteTriggers[site], siteTrigger{nth: nth, name: name, fn: fn})
 }
 
 // Advance lets d of simulated time pass while every task stays where it is
@@ -483,6 +508,46 @@ func (s *Sim) Run() Verdict {
 			return Done
 		}
 		parked, blocked := s.Alive()
+		if len(s.siteTriggers) > 0 {
+			// faults aimed at a site land at the quiescent point right after a
+			// task has parked there (inside a blocking primitive or a slow OS
+			// call, before a start or a fire); who runs next is then the
+			// strategy's choice
+			sort.Slice(parked, func(i, j int) bool { return parked[i].ID < parked[j].ID })
+			fired := false
+			for _, t := range parked {
+				if t.seenPark == t.parkCount {
+					continue
+				}
+				t.seenPark = t.parkCount
+				key := t.site
+				tr, ok := s.siteTriggers[key]
+				if !ok {
+					// "*" = any site other than the instruction boundary
+					if t.site == "vm.eval" {
+						continue
+					}
+					key = "*"
+					if tr, ok = s.siteTriggers[key]; !ok {
+						continue
+					}
+				}
+				s.siteParks[key]++
+				for i := range tr {
+					if !tr[i].done && s.siteParks[key] == tr[i].nth {
+						tr[i].done = true
+						s.Mark("event:" + tr[i].name + "@" + t.site)
+						tr[i].fn()
+						synctest.Wait()
+						fired = true
+					}
+				}
+			}
+			if fired {
+				s.drainWake()
+				parked, blocked = s.Alive()
+			}
+		}
 		if len(parked) == 0 {
 			if len(blocked) == 0 {
 				return Done
@@ -519,8 +584,8 @@ func (s *Sim) Run() Verdict {
 			s.Preempts++
 			s.PairSet[s.last.site+">"+pick.site] = struct{}{}
 		}
-		s.record(pick.ID, pick.site)
 		s.SiteCount[pick.site]++
+		s.record(pick.ID, pick.site)
 		pick.Steps++
 		s.last = pick
 		s.Step++
